@@ -260,6 +260,23 @@ def encData (ver op : Nat) (extra : List TItem) : Data → Option (List TItem)
       if op == Op.signatureVerify then some [uidItem u, enm T.validityIndicator (if b then 1 else 2)] else none
     | _ => none
 
+/-! ### which `Data` shape belongs to which operation -/
+
+/-- the result shapes an operation's handler can return (`Engine/Ops.lean`; proved: `processOperation_data_fits`) -/
+def shapeFits (op : Nat) : Data → Bool
+  | .uid _ => op == Op.create || uidOnlyOps.contains op || op == Op.setAttribute
+  | .uidAttr _ _ => op == Op.modifyAttribute || op == Op.deleteAttribute
+  | .keyPair _ _ => op == Op.createKeyPair
+  | .uids _ => op == Op.locate
+  | .object .. => op == Op.get
+  | .attrs _ _ => op == Op.getAttributes
+  | .names _ _ => op == Op.getAttributeList
+  | .ops _ _ => op == Op.query
+  | .versions _ => op == Op.discoverVersions
+  | .crypto _ (.ok _) => (cryptoTag op).isSome
+  | .crypto _ (.verdict _) => op == Op.signatureVerify
+  | .crypto _ _ => false
+
 /-! ### the response message -/
 
 /-- one executed item; `none` = its payload cannot be written -/
